@@ -401,6 +401,16 @@ func (x *X) external(fr *Frame, st *State, fn *ssa.Function, args []SV, cc *ssa.
 			x.vc.assume(mkImplies(mkEq(argT(0), argT(1)), r))
 		}
 		return rets
+	case "strings.CutPrefix":
+		// (after, found): found is HasPrefix(s, prefix); then s == prefix + after, else after == s
+		s0, pre := argT(0), argT(1)
+		found := x.vc.define("ext", x.ufS("ext_strings_HasPrefix_r0", SBool, s0, pre))
+		after := x.vc.fresh("cutafter", SStr)
+		x.vc.assume(x.ile(x.ic(0), app(isz, "strlen", after)))
+		x.vc.assume(mkImplies(found, mkEq(app(SStr, "strcat", pre, after), s0)))
+		x.vc.assume(mkImplies(mkNot(found), mkEq(after, s0)))
+		x.enc.assumption("strings.CutPrefix(s, p) = (after, found): found == HasPrefix(s, p); found implies s == p + after; otherwise after == s")
+		return []SV{after, found}
 	case "maps.Copy", "maps.Insert", "maps.DeleteFunc":
 		// the destination map is rewritten: its contents become arbitrary
 		if mt, ok := sig.Params().At(0).Type().Underlying().(*types.Map); ok {
@@ -473,7 +483,10 @@ func (x *X) external(fr *Frame, st *State, fn *ssa.Function, args []SV, cc *ssa.
 			}
 		}
 		if name == "regexp.MustCompile" {
-			x.enc.assumption("regexp.MustCompile does not panic on patterns that syntax.Parse accepted under the corresponding flags")
+			x.enc.assumption("regexp.MustCompile does not panic on patterns that syntax.Parse accepted under the corresponding flags, and returns a non-nil *Regexp")
+			if r, ok := rets[0].(Term); ok && r.Sort == SInt {
+				x.vc.assume(mkNot(mkEq(r, intLit(0))))
+			}
 		}
 		return rets
 	case "unicode/utf8.RuneLen", "unicode/utf8.ValidRune", "unicode/utf16.IsSurrogate", "unicode/utf16.DecodeRune", "unicode/utf8.RuneCountInString", "unicode.IsSpace", "unicode.IsDigit", "unicode.IsLetter", "github.com/smasher164/xid.Start", "github.com/smasher164/xid.Continue", "unicode/utf8.ValidString", "unicode/utf8.RuneError":
